@@ -114,6 +114,11 @@ PROPS["C09"] = {
         ("R-STATS-ERR-MAP", rules_stats.rule_stats_err_map, {}),
         ("R-FIT-MAP", _fit_map, {}),
         ("R-LM-CONTRACT", rules_lm.rule_lm_contract, {"configs": ("default",)}),
+        # "never values computed for earlier parameters": no update reads or keeps the previous cache (a "parameters unchanged"
+        # shortcut compares with ==, and 0.0 == -0.0)
+        ("R-NO-HISTORY", rp2.rule_no_history, {}),
+        # "no failure at any call index causes a panic": also not a debug assertion about the state after the minimisation
+        ("R-PANIC-SITES", rpn.rule_panic_sites, {}),
     ],
     "explanation": "Error discipline decided on the type-checked MIR of both feature configurations: every call site of a "
                    "Result-returning SeparableNonlinearModel method is propagated with ?, converted with .ok() into an Option whose "
@@ -465,9 +470,11 @@ PROPS["C17"] = {
         ("R-ERR-STATE-PRESERVING", rm.rule_err_state_preserving, {}),
         ("R-MODEL-GUARDS", rm.rule_model_guards, {}),
         ("R-COLUMN-ORDER", rm.rule_column_order, {}),
+        # "never a panic": no unguarded panic-capable site in the model's methods and the wrapped callables
+        ("R-PANIC-SITES", _panic_sites, {"scope": "model"}),
     ],
     "explanation": "The only call site of a stored user callable is the checking helper, which returns Ok(v) only under len(v) == len(x); its callers propagate with ?; in &mut self methods of SeparableModel no field write lies on a path to Err and the parameter write is dominated by the length check; "
-                   "allocation in eval/eval_partial_deriv is dominated by the parameter-count (and index) guards; Err(DerivativeIndexOutOfBounds) only under index >= number of parameters; results are allocated |x| x |functions| and no Ok return hands out a matrix that was not filled from the checked evaluations (unless there are no functions).",
+                   "allocation in eval/eval_partial_deriv is dominated by the parameter-count (and index) guards; Err(DerivativeIndexOutOfBounds) only under index >= number of parameters; results are allocated |x| x |functions| and no Ok return hands out a matrix that was not filled from the checked evaluations (unless there are no functions); a successful set_params has stored the given vector on every path; no unguarded panic-capable site in the model's methods and the wrapped callables.",
     "not_decided": [],
 }
 
